@@ -27,7 +27,7 @@ Every disagreement is re-run (and shrunk) before it is reported.
 """
 import json, os, re
 import vlib
-from checks import pipecommon
+from checks import pipecommon, c12_bininput
 
 LEVEL = "model_checking"
 
@@ -891,6 +891,8 @@ def bin_counterexample(ctx, binp, scn, r):
 def replay(ctx, rp):
     """bin/check C12 --replay replays/C12_xxx.json"""
     jvm_env()
+    if rp["replay"].get("stage") == "bininput":
+        return c12_bininput.replay(ctx, rp["replay"])
     binp = build(ctx)
     c, cmds = rp["replay"]["cfg"], rp["replay"]["cmds"]
     s = close_script(c, cmds) or Script(c, cmds, ["xreset"])
@@ -1054,3 +1056,6 @@ def run(ctx):
     # 6. the out-of-band queue of the real queue filled to its 255 messages
     ctx.extra["full_queue"] = overflow_histories(ctx, binp, scn)
     lap("overflow")
+    # 7. a bin whose first inner pipe is replaced / dropped while requests are registered on it
+    c12_bininput.run_part(ctx)
+    lap("bin_first_inner")
